@@ -128,7 +128,8 @@ class GraphqlErrorFromNodes(Contract):
     def pre(self, A, st):
         n = A['nodes']
         return [('nodes', z3.Or(ast_node(n), node_list(n))),
-                ('path', z3.Implies(inst(A['path'], 'Path'), PathWf(A['path'])))]
+                ('path', z3.Implies(inst(A['path'], 'Path'), PathWf(A['path']))),
+                ('message_is_text', V.is_Str(A['message']))]      # every error of a response carries a string message (C18)
 
     def post(self, A, st0, out):
         if out.kind == 'raise':
